@@ -1007,7 +1007,7 @@ mod c13 {
     // KIND: complete
     #[kani::proof]
     #[kani::unwind(3)]
-    fn c13_x1_add_id_overflow() {
+    fn c13_kf_add_id_overflow() {
         let (mut st, mut bufs) = any_inner::<3>(0, 0);
         st.subscriptions_count = 0;
         st.next_subscription_id = u32::MAX;
